@@ -150,20 +150,25 @@ fn dry_run<T: Sc>(case: &C09Case) -> Result<Dry, Fail> {
     let out = execute::<T>(case, None)?;
     let total = out.fit_start + out.fit_log.len();
     let labels: Vec<(String, CallKind)> = out.log.iter().map(|(n, r)| (n.clone(), r.kind)).collect();
-    // anatomy of the fit step: probe run of the identical optimizer on an identically built problem
+    // anatomy of the fit step: probe run of the identical optimizer on an identically built
+    // problem with its own call log: the model calls made inside minimize() are the fit proper
     let solver = case.lm.resolved::<T>().solver::<T>();
-    let mut prob = case.base.build::<T>().map_err(|e| Fail::new("build", e))?;
+    let ctl2 = Ctl::new();
+    ctl2.logging.store(true, SeqCst);
+    let mut prob = case.base.build_at::<T>(None, Some(ctl2.clone())).map_err(|e| Fail::new("build", e))?;
     for u in &case.updates {
         let a: Vec<T> = u.iter().map(|v| T::of(*v)).collect();
         prob.set_params(&a);
     }
+    let _ = prob.jacobian();
+    let _ = ctl2.take_log();
     let mut events: Vec<ProbeEv> = vec![];
     {
         let mut cb = |_p: &dyn Prob<T>, ev: ProbeEv, _: &[T]| events.push(ev);
         let _ = prob.minimize_probed(&solver, &mut cb);
     }
-    let n_sets = events.iter().filter(|e| **e == ProbeEv::AfterSet).count();
-    let n_jacs = events.iter().filter(|e| **e == ProbeEv::Jacobian).count();
+    let probe_log = ctl2.take_log();
+    let fit_calls = probe_log.len();
     // re-application: the last set_params is not followed by a residuals query
     let last_set = events.iter().rposition(|e| *e == ProbeEv::AfterSet);
     let has_reapply = match last_set {
@@ -171,19 +176,15 @@ fn dry_run<T: Sc>(case: &C09Case) -> Result<Dry, Fail> {
         None => false,
     };
     let p = case.base.spec.p;
-    let fit_calls = 2 * n_sets + p * n_jacs;
-    // cross-check with the model's own log: set_params calls of the fit step
+    if out.fit_log.len() < fit_calls || out.fit_log[..fit_calls].iter().zip(&probe_log).any(|(a, b)| a.kind != b.kind) {
+        return Err(Fail::new("harness", "dry run anatomy: the probe run and the fit make different model calls".to_string()));
+    }
     let adapter = usize::from(out.fo.best_fit.is_some());
     let stats_calls = out.fit_log.len().saturating_sub(fit_calls + adapter);
     if !case.base.mrhs && out.fo.ok && stats_calls != p + 2 {
         return Err(Fail::new("harness", format!("dry run anatomy: {} calls in the fit step, {fit_calls} optimizer calls, {adapter} adapter call, {stats_calls} statistics calls (expected {})", out.fit_log.len(), p + 2)));
     }
-    let reapply_at = if has_reapply {
-        // relative index of the last SetParams record among the first fit_calls records
-        out.fit_log[..fit_calls.min(out.fit_log.len())].iter().rposition(|r| r.kind == CallKind::SetParams)
-    } else {
-        None
-    };
+    let reapply_at = if has_reapply { probe_log.iter().rposition(|r| r.kind == CallKind::SetParams) } else { None };
     Ok(Dry { total, fit: DryFit { fit_calls, stats_calls, reapply_at, term: out.fo.report.term.clone(), ok: out.fo.ok }, labels })
 }
 
